@@ -6,6 +6,7 @@ Numbers are proxy objects.  Kinds:
 Every branch on a symbolic condition goes through Ctx.decide(), which explores
 both feasible outcomes by re-execution with a decision prefix (DFS).
 """
+import os
 import sys
 import time
 import fractions
@@ -53,7 +54,7 @@ class Path(object):
 
 class Ctx(object):
     def __init__(self, pre, max_decisions=300, timeout_ms=20000, trig=None, check_div0=True,
-                 track_sites=False, max_paths=5000, opaque_mul=False, fresh_div=False):
+                 track_sites=False, max_paths=5000, opaque_mul=False, fresh_div=False, max_seconds=None):
         self.pre = list(pre) if isinstance(pre, (list, tuple)) else [pre]
         self.max_decisions = max_decisions
         self.timeout_ms = timeout_ms
@@ -63,6 +64,8 @@ class Ctx(object):
         self.max_paths = max_paths
         self.opaque_mul = opaque_mul
         self.fresh_div = fresh_div
+        self.max_seconds = max_seconds or float(os.environ.get('SYMX_EXPLORE_BUDGET_S', '0') or 0) or None
+        self.t_start = time.time()
         self.nq = 0
         self.t_solver = 0.0
         self.unknown_feas = 0
@@ -122,6 +125,8 @@ class Ctx(object):
         else:
             if self.pos >= self.max_decisions:
                 raise Unwind()
+            if self.max_seconds and time.time() - self.t_start > self.max_seconds:
+                raise EngineError('exploration exceeded its wall-clock budget of %ds' % self.max_seconds)
             rt = self._check(cond)
             if weak_true and rt == z3.unknown:
                 self.div0_unknown += 1
